@@ -105,3 +105,37 @@ func VH_C20_recv_arbitrary() {
 	v.Assert(q.Type == p.Type && q.ID == p.ID && string(q.Data) == string(p.Data), "the received packet is the decoding of exactly the framed bytes")
 	v.Assert(!v.Overlaps(p.Data, data), "the received packet does not alias the stream buffer")
 }
+
+// VH_C20_framing_big: a DATA packet whose encoding straddles the pooled 32 KiB buffer size (every
+// encoded size from 32768-W to 32768+W), followed or preceded by a small packet, is framed and
+// read back identical. The payload is a fixed byte pattern except for symbolic first/last bytes.
+func VH_C20_framing_big() {
+	w0 := v.Param("W", 6)
+	// encoded size = len(data) + 6 (type 2 bytes, data tag 1 + 3-byte length)
+	d := 32768 - 6 - w0 + v.Choose("dl", 2*w0+1)
+	data := make([]byte, d)
+	for i := range data {
+		data[i] = byte(i*7 + 3)
+	}
+	data[0], data[d-1] = v.U8("first"), v.U8("last")
+	big := &types.Packet{Type: types.PACKET_DATA, Data: data}
+	small := symPacket("s", 1, false)
+	bigFirst := v.Bool("bigFirst")
+	p1, p2 := small, big
+	if bigFirst {
+		p1, p2 = big, small
+	}
+	w := &sinkWriter{}
+	tx := NewProtoStream(context.Background(), nil, w)
+	v.Assert(tx.SendMsg(p1) == nil && tx.SendMsg(p2) == nil, "SendMsg succeeds")
+	v.Assert(len(w.data) == 8+p1.SizeVT()+p2.SizeVT(), "the stream holds two length-prefixed frames")
+	rx := NewProtoStream(context.Background(), &fragReader{data: w.data, whole: true}, nil)
+	var q1, q2 types.Packet
+	v.Assert(rx.RecvMsg(&q1) == nil, "first RecvMsg succeeds")
+	v.Assert(rx.RecvMsg(&q2) == nil, "second RecvMsg succeeds")
+	v.Assert(q1.Type == p1.Type && q1.ID == p1.ID && string(q1.Data) == string(p1.Data), "first packet read back identical (after the second receive)")
+	v.Assert(q2.Type == p2.Type && q2.ID == p2.ID && string(q2.Data) == string(p2.Data), "second packet read back identical")
+	var q3 types.Packet
+	v.Assert(rx.RecvMsg(&q3) == io.EOF, "end of stream after the last packet")
+	v.Cover("done")
+}
